@@ -168,6 +168,17 @@ func cmdC05(r *RNG, n int, e *Emitter, args []string) {
 			in, split = clip.Paths64{nd}, 0
 			e.Count("shape=needle")
 		}
+		// ways of writing a ring down: explicit closing vertex, a repeated vertex
+		for k := range in {
+			if r.Intn(4) == 0 {
+				in[k] = append(append(clip.Path64{}, in[k]...), in[k][0])
+			}
+			if r.Intn(6) == 0 {
+				j := r.Intn(len(in[k]))
+				d := append(clip.Path64{}, in[k][:j+1]...)
+				in[k] = append(append(d, in[k][j]), in[k][j+1:]...)
+			}
+		}
 		jt := clip.JoinType(r.Intn(4))
 		miter := []float64{1, 2, 2, 3, 5}[r.Intn(5)]
 		arct := []float64{0, 0, 0.25, 1, 3}[r.Intn(5)]
